@@ -302,6 +302,35 @@ def apply_renames(mods: dict[str, Module], ren: dict[str, str]) -> None:
 
 
 # ---------------------------------------------------------------------------------------------------- helper inlining
+def _contains_return(stmts: list[ast.stmt]) -> bool:
+    return any(isinstance(n, ast.Return) for st in stmts for n in ast.walk(st))
+
+
+def _single_exit(block: list[ast.stmt], rv: str, depth: int = 0):
+    """(block without `return`, always_returns): every `return e` becomes `rv = e` and what followed a returning branch moves into the other branch.
+    None when a return sits inside a loop / try / with (no structured rewrite)."""
+    if depth > 12:
+        return None
+    out: list[ast.stmt] = []
+    for i, st in enumerate(block):
+        if isinstance(st, ast.Return):
+            out.append(ast.copy_location(ast.Assign(targets=[ast.Name(id=rv, ctx=ast.Store())], value=st.value or ast.Constant(value=None)), st))
+            return out, True
+        if isinstance(st, ast.If) and _contains_return([st]):
+            rest = block[i + 1:]
+            a = _single_exit([*[_clone(x) for x in st.body], *[_clone(x) for x in rest]] if _contains_return(st.body) else [*st.body, *[_clone(x) for x in rest]], rv, depth + 1)
+            b = _single_exit([*[_clone(x) for x in st.orelse], *[_clone(x) for x in rest]], rv, depth + 1)
+            if a is None or b is None:
+                return None
+            new = ast.copy_location(ast.If(test=st.test, body=a[0] or [ast.Pass()], orelse=b[0]), st)
+            out.append(new)
+            return out, a[1] and b[1]
+        if isinstance(st, (ast.For, ast.While, ast.Try, ast.With, ast.Match)) and _contains_return([st]):
+            return None
+        out.append(st)
+    return out, False
+
+
 class _Helper:
     def __init__(self, mod: Module, cls: ast.ClassDef | None, node: ast.FunctionDef) -> None:
         self.mod, self.cls, self.node = mod, cls, node
@@ -317,7 +346,20 @@ class _Helper:
         self.ret: ast.expr | None = None
         if rets:
             if len(rets) != 1 or not body or rets[0] is not body[-1]:
-                self.ok = False
+                # guard clauses / if-else trees of returns: rewritten to a single exit through a result variable
+                rv = f"{node.name.strip('_')}__result"
+                conv = _single_exit(body, rv) if self.ok else None
+                if conv is None:
+                    self.ok = False
+                else:
+                    new_body, always = conv
+                    pre = [] if always else [ast.Assign(targets=[ast.Name(id=rv, ctx=ast.Store())], value=ast.Constant(value=None))]
+                    body = [*pre, *new_body, ast.Return(value=ast.Name(id=rv, ctx=ast.Load()))]
+                    for st in body:
+                        ast.copy_location(st, node)
+                        ast.fix_missing_locations(st)
+                    self.body = body
+                    self.ret = body[-1].value
             else:
                 self.ret = rets[0].value or ast.Constant(value=None)
         pos = [a.arg for a in [*node.args.posonlyargs, *node.args.args]]
@@ -541,6 +583,24 @@ class Inliner:
                 if isinstance(s, ast.Match):
                     for c in s.cases:
                         c.body = rewrite_block(c.body)
+                if isinstance(s, ast.If):
+                    tcall = s.test.operand if isinstance(s.test, ast.UnaryOp) and isinstance(s.test.op, ast.Not) else s.test
+                    th = self._target(mod, cls, fn, tcall) if isinstance(tcall, ast.Call) else None
+                    if th is not None and th.node is not fn and th.ret is not None:
+                        self._uid += 1
+                        tmp = f"{th.node.name.strip('_')}__value{self._uid}"
+                        pre_stmt = ast.copy_location(ast.Assign(targets=[ast.Name(id=tmp, ctx=ast.Store())], value=tcall), s)
+                        ast.fix_missing_locations(pre_stmt)
+                        rep = self._expand_stmt(th, pre_stmt, tcall, fn, caller_names)
+                        if rep is not None:
+                            ref = ast.copy_location(ast.Name(id=tmp, ctx=ast.Load()), tcall)
+                            if tcall is s.test:
+                                s.test = ref
+                            else:
+                                s.test.operand = ref  # type: ignore[union-attr]
+                            out.extend(rep)
+                            changed = True
+                            self.log.append(f"{mod.relpath}:{s.lineno} {fn.name}: inlined new helper {th.node.name}() out of an if-test")
                 call = self._stmt_call(s)
                 h = self._target(mod, cls, fn, call) if call is not None else None
                 if h is not None and h.node is not fn:
@@ -786,6 +846,7 @@ class _Forward:
                 if old is None:
                     continue
                 self._split_unpack(fn, old)
+                self._thread_flags(mod, q, fn, old)
                 for _ in range(60):
                     new = [x for x in _stored_locals(fn) if x not in old]
                     if not new or not any([self._try(mod, q, fn, x) for x in new]):
@@ -802,6 +863,55 @@ class _Forward:
         if isinstance(node, ast.Match):
             for c in node.cases:
                 yield c.body
+
+    def _thread_flags(self, mod: Module, q: str, fn: ast.FunctionDef, old: list[str]) -> None:
+        """`<if-tree whose every leaf ends in flag = True/False>; if flag: B else: O` with `flag` a new local used nowhere else:
+        B / O move to the leaves (the flag only carried the control decision out of an inlined helper)."""
+        def leaves_ok(block: list[ast.stmt], name: str) -> bool:
+            if not block:
+                return False
+            last = block[-1]
+            if isinstance(last, ast.Assign) and len(last.targets) == 1 and isinstance(last.targets[0], ast.Name) and last.targets[0].id == name:
+                return isinstance(last.value, ast.Constant) and (isinstance(last.value.value, bool) or last.value.value is None) \
+                    and not any(isinstance(n, ast.Name) and n.id == name for st in block[:-1] for n in ast.walk(st))
+            if isinstance(last, ast.If) and last.orelse:
+                return leaves_ok(last.body, name) and leaves_ok(last.orelse, name) and not any(isinstance(n, ast.Name) and n.id == name for st in block[:-1] for n in ast.walk(st)) \
+                    and not any(isinstance(n, ast.Name) and n.id == name for n in ast.walk(last.test))
+            return False
+
+        def thread(block: list[ast.stmt], name: str, on_true: list[ast.stmt], on_false: list[ast.stmt]) -> None:
+            last = block[-1]
+            if isinstance(last, ast.Assign):
+                repl = on_true if last.value.value else on_false  # type: ignore[attr-defined]
+                block[-1:] = [_clone(x) for x in repl] or [ast.copy_location(ast.Pass(), last)]
+            else:
+                thread(last.body, name, on_true, on_false)  # type: ignore[union-attr]
+                thread(last.orelse, name, on_true, on_false)  # type: ignore[union-attr]
+
+        work: list[ast.AST] = [fn]
+        while work:
+            node = work.pop()
+            for b in self._blocks(node):
+                i = 0
+                while i + 1 < len(b):
+                    nxt = b[i + 1]
+                    if isinstance(nxt, ast.If):
+                        t = nxt.test
+                        neg = isinstance(t, ast.UnaryOp) and isinstance(t.op, ast.Not)
+                        nm = t.operand if neg else t
+                        if isinstance(nm, ast.Name) and nm.id not in old and nm.id not in _params(fn) and isinstance(b[i], ast.If):
+                            name = nm.id
+                            uses = sum(1 for n in ast.walk(fn) if isinstance(n, ast.Name) and n.id == name and isinstance(n.ctx, ast.Load))
+                            if uses == 1 and leaves_ok([b[i]], name):
+                                on_true, on_false = (nxt.orelse, nxt.body) if neg else (nxt.body, nxt.orelse)
+                                thread([b[i]], name, on_true, on_false)
+                                del b[i + 1]
+                                self.log.append(f"{mod.relpath}:{b[i].lineno} {q}: control flag `{name}` threaded into the branches that set it")
+                                continue
+                    i += 1
+                for st in b:
+                    if not isinstance(st, (*FuncNode, ast.ClassDef)):
+                        work.append(st)
 
     def _split_unpack(self, fn: ast.FunctionDef, old: list[str]) -> None:
         """`a, b = e` on new locals with `e` a plain reference (or a tuple display) becomes `a = e[0]; b = e[1]`, so that each part can be substituted."""
